@@ -91,15 +91,24 @@ def lit_src(t, src, names):
     return name + '(' + ', '.join(lit_src(a, src, names) for a in t[2]) + ')'
 
 
-def api_build(yp, t, vmap, style):
-    """the same term built through the Python API"""
+def api_build(yp, t, vmap, style, shared=None):
+    """the same term built through the Python API; with `shared` (a dict) equal compound sub-terms are ONE object used in
+    several places, as in pt = yp.functor('pt', [1, 2]); yp.functor('seg', [pt, pt])"""
+    if shared is not None and t[0] == 'f':
+        if t not in shared:
+            shared[t] = _api_build(yp, t, vmap, style, shared)
+        return shared[t]
+    return _api_build(yp, t, vmap, style, shared)
+
+
+def _api_build(yp, t, vmap, style, shared):
     if t[0] == 'v':
         return vmap.setdefault(t, yp.variable())
     if t[0] == 'a':
         return yp.ATOM_NIL if (t[1] == '[]' and style % 2) else yp.atom(t[1])
     if t[0] == 'i':
         return t[1]
-    args = [api_build(yp, a, vmap, style) for a in t[2]]
+    args = [api_build(yp, a, vmap, style, shared) for a in t[2]]
     if t[1] == '.' and len(args) == 2:
         # proper list -> makelist, else listpair
         items = []
@@ -108,7 +117,7 @@ def api_build(yp, t, vmap, style):
             items.append(cur[2][0])
             cur = cur[2][1]
         if cur == NIL and style % 3 == 0:
-            return yp.makelist([api_build(yp, x, vmap, style) for x in items])
+            return yp.makelist([api_build(yp, x, vmap, style, shared) for x in items])
         return yp.listpair(args[0], args[1])
     if style % 2 == 0:
         if len(args) == 1:
@@ -161,6 +170,12 @@ class C16(Prop):
 
     def decode(self, src):
         t = glit(src)
+        k = src.n(8)
+        dup_ok = t[0] == 'f' and not term_vars(t, [])      # `_` written twice would be two variables
+        if k == 6 and dup_ok:
+            t = ('f', 'seg', (t, t))                    # the same sub-term twice (API: one object used in two places)
+        elif k == 7 and dup_ok:
+            t = mklist([t, ('a', 'sep'), t])
         names = {}
         text = lit_src(t, src, names)
         return {'lit': t, 'src': text, 'position': src.pick(['fact', 'head', 'body', 'query', 'file']), 'style': src.n(6)}
@@ -242,6 +257,20 @@ class C16(Prop):
             if n != 1:
                 return FAIL('api-built-term-does-not-match-literal', dict(detail, answers=n))
             ground = not term_vars(t, [])
+            if ground and not has_partial_list(exp):
+                # built directly (never unified with anything), equal sub-terms shared as one object or not
+                for sh in (None, {}):
+                    direct = api_build(yp, t, {}, case.get('style', 0), sh)
+                    try:
+                        py = impl.to_python(direct)
+                    except Exception as e:      # noqa
+                        return FAIL('to_python-of-api-term-raises:' + type(e).__name__, dict(detail, error=str(e)[:200], sub_terms_shared=sh is not None))
+                    if py != image(exp):
+                        return FAIL('to_python-of-api-term-differs', dict(detail, expected=repr(image(exp))[:300], observed=repr(py)[:300], sub_terms_shared=sh is not None))
+                    if impl.reify(direct, {}) != exp:
+                        return FAIL('api-term-reads-back-differently', dict(detail, sub_terms_shared=sh is not None))
+                    if sh is not None and sum(1 for _ in yp.query('p', [direct])) != 1:
+                        return FAIL('api-built-term-does-not-match-literal', dict(detail, sub_terms_shared=True))
             if ground:
                 # a pattern: the literal with sub-terms (also list tails) replaced by variables, built through the
                 # API, matched against the compiled literal; read back while the answer is current
